@@ -359,10 +359,12 @@ theorem LO_qq_is_moment_partial (m : ℕ) (nf prty : ℝ) (P : SF) (h : P.S1 = r
   have hm2 : ((m : ℂ) + 1 + 1) ≠ 0 := by
     have : ((m + 2 : ℕ) : ℂ) ≠ 0 := by exact_mod_cast Nat.succ_ne_zero (m + 1)
     intro hh; apply this; push_cast; rw [← hh]; ring
-  refine ⟨?_, rfl⟩
+  refine ⟨?_, ?_⟩
+  swap
+  · apply toC_inj; rw [non_singlet_LO_C, singlet_LO_qq_C]
   apply toC_inj
-  rw [hint, h2, h0]
-  simp only [singlet_LO, toC_add, toC_sub, toC_mul, toC_div, toC_neg, toC_r, h]
+  rw [hint, h2, h0, singlet_LO_qq_C]      -- from here on: the hand-written form qq0C (Proofs/Adim.lean)
+  simp only [qq0C, toC_r, h]
   push_cast
   have hm2' : (1 + ((m : ℂ) + 1)) ≠ 0 := by rw [add_comm]; exact hm2
   have hm3 : ((m : ℂ) + 2) ≠ 0 := by intro hh; apply hm2; rw [← hh]; ring
@@ -384,8 +386,8 @@ theorem LO_qg_is_moment_partial (m : ℕ) (nf prty : ℝ) (P : SF) :
   have e2 : (1 + ((m : ℂ) + 1)) = (m : ℂ) + 2 := by ring
   have e3 : (2 + ((m : ℂ) + 1)) = (m : ℂ) + 3 := by ring
   apply toC_inj
-  rw [hint]
-  simp only [singlet_LO, toC_add, toC_sub, toC_mul, toC_div, toC_neg, toC_r]
+  rw [hint, singlet_LO_qg_C]
+  simp only [qg0C, toC_r]
   push_cast
   rw [e2, e3]
   field_simp
@@ -408,8 +410,8 @@ theorem LO_gq_is_moment_partial (m : ℕ) (nf prty : ℝ) (P : SF) :
   have e1 : (-1 + ((m : ℂ) + 2)) = (m : ℂ) + 1 := by ring
   have e3 : (1 + ((m : ℂ) + 2)) = (m : ℂ) + 3 := by ring
   apply toC_inj
-  rw [hint]
-  simp only [singlet_LO, toC_add, toC_sub, toC_mul, toC_div, toC_neg, toC_r]
+  rw [hint, singlet_LO_gq_C]
+  simp only [gq0C, toC_r]
   push_cast
   rw [e1, e3]
   field_simp
@@ -439,8 +441,8 @@ theorem LO_gg_is_moment_partial (m : ℕ) (nf prty : ℝ) (P : SF) (h : P.S1 = r
   have e3 : (1 + ((m : ℂ) + 2)) = (m : ℂ) + 3 := by ring
   have e4 : (2 + ((m : ℂ) + 2)) = (m : ℂ) + 4 := by ring
   apply toC_inj
-  rw [hplus, hreg]
-  simp only [singlet_LO, toC_add, toC_sub, toC_mul, toC_div, toC_neg, toC_r, h]
+  rw [hplus, hreg, singlet_LO_gg_C]
+  simp only [gg0C, toC_r, h]
   push_cast
   rw [e1, e3, e4]
   field_simp
@@ -462,17 +464,18 @@ theorem c1_FL_is_moment_partial (m : ℕ) (nf : ℝ) (P : SF) :
   have hm3 : ((m : ℂ) + 3) ≠ 0 := by exact_mod_cast Nat.succ_ne_zero (m + 2)
   have e2 : (1 + ((m : ℂ) + 1)) = (m : ℂ) + 2 := by ring
   have e3 : (2 + ((m : ℂ) + 1)) = (m : ℂ) + 3 := by ring
-  refine ⟨?_, rfl, rfl, ?_⟩
+  obtain ⟨cQ, cP, cM, cG⟩ := c1_FL_C (r ((m : ℝ) + 1)) nf P      -- the hand-written forms cFLqC, cFLgC
+  refine ⟨?_, toC_inj (cP.trans cQ.symm), toC_inj (cM.trans cQ.symm), ?_⟩
   · apply toC_inj
-    rw [hq]
-    simp only [c1_FL, toC_add, toC_sub, toC_mul, toC_div, toC_neg, toC_r]
+    rw [hq, cQ]
+    simp only [cFLqC, toC_r]
     push_cast
     rw [e2]
     field_simp
     ring
   · apply toC_inj
-    rw [hg]
-    simp only [c1_FL, toC_add, toC_sub, toC_mul, toC_div, toC_neg, toC_r]
+    rw [hg, cG]
+    simp only [cFLgC, toC_r]
     push_cast
     rw [e2, e3]
     field_simp
